@@ -54,6 +54,28 @@ def gen_specs(run):
             verifies.append({"mode": "RecoverAndVerify", "vmembers": vm, "_order": order, "_withheld": p})
         specs.append({"id": f"c09-{sid}", "group": "fm", "members": mems, "verifies": verifies, "with_gens": False, "_kind": "batch", "_conf": [b, T, n]})
         sid += 1
+    # batches spanning several internal chunks of 256: whole chunks without a seeded member next to chunks with one, seeded members at the
+    # chunk boundaries; every result must sit at the position of its own proof
+    def layout(name, kinds):
+        pool = {"s": [gen.mk_member(rng, 2, 1, T=rng.choice([1, 2]) if False else 1, seed=True) for _ in range(3)],
+                "u": [gen.mk_member(rng, 2, 1, T=1, seed=False) for _ in range(2)],
+                "a": [gen.mk_member(rng, 2, 2, cap=2, T=1, seed=False)]}
+        mems = pool["s"] + pool["u"] + pool["a"]
+        idx = {"s": [0, 1, 2], "u": [3, 4], "a": [5]}
+        vm = []
+        for i, k_ in enumerate(kinds):
+            j = idx[k_][i % len(idx[k_])]
+            vm.append(gen.vmember(mems[j], j))
+        verifies = [{"mode": md, "vmembers": vm, "log": False} for md in ("RecoverAndVerify", "RecoverOnly")]
+        specs.append({"id": f"c09-chunks-{name}", "group": "fm", "members": mems, "verifies": verifies, "with_gens": False, "log_merlin": False, "log_msm": False,
+                      "_kind": "chunks", "_conf": [name, len(kinds)]})
+    layout("unseeded-chunk-then-seeded", ["u"] * 256 + ["s"])
+    layout("seeded-unseeded-chunk-seeded", ["s"] + ["u"] * 255 + ["u"] * 256 + ["s", "u", "s"])
+    layout("boundaries", ["u"] * 255 + ["s", "s"] + ["u"] * 254 + ["s"] + ["a", "s"])
+    if not quick:
+        layout("three-chunks-middle-empty", ["s", "a"] * 128 + ["u"] * 256 + ["s"] * 3)
+        layout("only-last", ["u"] * 767 + ["s"])
+        layout("random", [rng.choice("suua") for _ in range(700)])
     return specs
 
 
@@ -103,7 +125,7 @@ def run(run: Run):
         "proof",
         "seeded single proofs for bit lengths 1..64 x extension degrees 1..6 with pairwise distinct blinding components, several capacities, contexts and prover RNGs, "
         "verified in the three modes (and with a different capacity); batches mixing seeded, unseeded and aggregated members in random order, incl. one seed withheld; "
-        "returned masks compared with the blinding factors position by position and with the Coq model's recovery formula; distinct by (kind, configuration, mode)",
+        "batches spanning several internal chunks with whole chunks lacking a seeded member and seeded members at the chunk boundaries; returned masks compared with the blinding factors position by position and with the Coq model's recovery formula; distinct by (kind, configuration, mode)",
         [],
         TRUSTED)
 
